@@ -20,10 +20,14 @@ static std::vector<RCP<const Basic>> composite_pool(const std::string &obl)
     std::vector<RCP<const Basic>> objs;
     if (obl.find(".Pow.") != std::string::npos) { for (auto &a : {x, y, z}) for (auto &b : ch) if (!eq(*a, *b)) objs.push_back(pow(a, b)); }
     else if (obl.find(".Interval.") != std::string::npos) {
-        std::vector<RCP<const Number>> e = {integer(0), integer(1), integer(2), rcp_static_cast<const Number>(big)};
+        std::vector<RCP<const Number>> e = {integer(0), integer(1), integer(2), rcp_static_cast<const Number>(big), NegInf, Inf};
         for (auto &a : e) for (auto &b : e) for (int lo = 0; lo < 2; lo++) for (int ro = 0; ro < 2; ro++) { RCP<const Basic> i = interval(a, b, lo, ro); if (is_a<Interval>(*i)) objs.push_back(i); }
     } else if (obl.find(".TwoArgBasic.") != std::string::npos) { for (auto &a : ch) for (auto &b : ch) { RCP<const Basic> r = Lt(a, b); if (is_a<StrictLessThan>(*r)) objs.push_back(r); RCP<const Basic> k = kronecker_delta(a, b); if (is_a<KroneckerDelta>(*k)) objs.push_back(k); } }
     else if (obl.find(".OneArgFunction.") != std::string::npos) { for (auto &a : ch) { RCP<const Basic> s = sign(a); if (is_a<Sign>(*s)) objs.push_back(s); RCP<const Basic> f = floor(add(a, div(x, integer(3)))); objs.push_back(f); } }
+    else if (obl.find(".ordered_compare.") != std::string::npos) {
+        std::vector<vec_basic> as = {{x}, {y}, {x, y}, {y, x}, {x, y, z}, {x, x, x}, {big, x}, {integer(5), x}};
+        for (auto &v : as) objs.push_back(function_symbol("f", v));
+    }
     else if (obl.find(".Add.") != std::string::npos) {
         std::vector<RCP<const Basic>> sums = {add(x, y), add(x, mul(integer(2), y)), add(add(x, y), z)};
         for (auto &s : sums) { objs.push_back(s); objs.push_back(sub(add(s, real_double(1.5)), real_double(1.5))); objs.push_back(add(s, integer(1))); objs.push_back(add(s, real_double(1.0))); objs.push_back(sub(add(s, integer(3)), integer(3))); }
@@ -51,6 +55,6 @@ static int composite_search(const std::string &obl, bool order_axioms)
 }
 static bool is_composite_obligation(const std::string &obl)
 {
-    for (const char *k : {".Pow.", ".Interval.", ".TwoArgBasic.", ".OneArgFunction.", ".Add."}) if (obl.find(k) != std::string::npos) return true;
+    for (const char *k : {".Pow.", ".Interval.", ".TwoArgBasic.", ".OneArgFunction.", ".Add.", ".ordered_compare.", ".Complement.", ".Contains."}) if (obl.find(k) != std::string::npos) return true;
     return false;
 }
